@@ -188,7 +188,7 @@ def derive_items(src):
     return items
 
 def canon_header(text):
-    """bound lists come out of a HashSet in the implementation: the `+`-separated bounds of every where predicate are sorted on both sides"""
+    """canonical form of an item header: bound lists come out of a HashSet in the implementation, and rustc gives no meaning to the order of attributes, of derive paths, of where predicates or of the bounds inside one: all sorted on both sides (enum BODIES are compared exactly: the order of variants is their wire index)"""
     toks = text.split()
     # token units: 'I x' / 'P c' / 'L v' are two words, group brackets one
     units, i = [], 0
@@ -205,6 +205,23 @@ def canon_header(text):
             else: cur.append(u)
         parts.append(cur)
         return parts
+    # leading attributes: their order, and the order of the paths inside #[derive(..)], mean nothing to rustc
+    attrs, k = [], 0
+    while k + 1 < len(units) and units[k] == ('P', '#') and units[k + 1] == ('G[',):
+        depth, j = 0, k + 1
+        while j < len(units):
+            if len(units[j]) == 1: depth += 1 if units[j][0].startswith('G') else -1
+            if depth == 0: break
+            j += 1
+        a = units[k:j + 1]
+        if len(a) > 4 and a[2] == ('I', 'derive') and a[3] == ('G(',):
+            inner = a[4:-2]
+            parts = sorted(split(inner, ('P', ',')))
+            flat = []
+            for n, b in enumerate(parts): flat += ([('P', ',')] if n else []) + b
+            a = a[:4] + flat + a[-2:]
+        attrs.append(a); k = j + 1
+    units = [u for a in sorted(attrs) for u in a] + units[k:]
     w = next((k for k, u in enumerate(units) if u == ('I', 'where')), None)
     if w is None: return ' '.join(' '.join(u) for u in units)
     head, clause = units[:w + 1], units[w + 1:]
@@ -217,6 +234,7 @@ def canon_header(text):
         for n, b in enumerate(bounds): flat += ([('P', '+')] if n else []) + b
         preds.append(pr[:c + 1] + flat)
     out = list(head)
+    preds = sorted(p_ for p_ in preds if p_)         # the order of the predicates means nothing either (nor does a trailing comma)
     for n, pr in enumerate(preds): out += ([('P', ',')] if n else []) + pr
     return ' '.join(' '.join(u) for u in out)
 
